@@ -338,6 +338,10 @@ def dynamic_check(pid, tier, mode):
     if thorough:
         hfile4, nh4 = store_histories(res, 4)
         runs.append(("hist4_real", ["--hists", hfile4, "--oracle", "real", "--stride", 2], nh4))
+    # query-free batches: from every logical state over 2 labels (observed by a query round), every sequence of <= 5 effective updates
+    # (MCBatch), one query round at the end -- what the lazily replayed buffer must amount to, whatever the batch cancels or re-creates
+    bfile, nb = export_replay(res, "MCBatch.tla", open(os.path.join(vlib.SPEC, "MCBatch.cfg")).read(), "MCBatch")
+    runs.append(("batches", ["--hists", bfile, "--labels", 2, "--oracle", "real", "--perhist", 3 if thorough else 1], nb))
     runs.append(("walks_real", ["--walks", 3000 if thorough else 520, "--len", 60, "--oracle", "real"], 0))
     runs.append(("walks_rand", ["--walks", 1500 if thorough else 260, "--len", 40, "--oracle", "random"], 0))
     runs.append(("longwalks", ["--walks", 260 if thorough else 52, "--len", 300, "--oracle", "real"], 0))
@@ -509,7 +513,7 @@ def c17(tier):
              ("unknown_rand", sets["rand"] if thorough else sets["rand"][:120], dict(fault="yes", present="compact"))]
     rng = random.Random(seed())
     sample = rng.sample(sets["ref3"], 531 if thorough else 40) + [a for a in sets["shaped"] if a["n"] <= 7][:10]
-    for mode in ("silent", "truncated", "garbage", "nomodel", "crash", "vnozero"):
+    for mode in ("silent", "truncated", "garbage", "nomodel", "crash", "vnozero", "lategarbage:9000", "lategarbage:70000"):
         plans.append(("process_" + mode, sample, dict(failing="yes", present="compact", backend="ext:%s|--mode|%s" % (FAKESAT, mode), enc="default")))
     for name, afs, opts in plans:
         segs = run_static(res, "C17_" + name, afs, sems="CO,PR,ST,SST,STG,ID", kinds="SE,DC,DS", cert="both", oracle="real", **opts)
@@ -526,7 +530,7 @@ def c17(tier):
     # every reply of <= 3 (4) lines that the specification classes as missing / truncated / malformed, through a real process
     rfile, nr = export_replay(res, "MCExtReply.tla", open(os.path.join(vlib.SPEC, "MCExtReply.cfg")).read().replace("MaxLines = 3", "MaxLines = %d" % (4 if thorough else 3)), "MCExtReply")
     out = os.path.join(res.wd, "trunc.ndjson")
-    vlib.vh(["ext", "--replies", rfile, "--volumes", ",".join("trunc:%d" % k for k in range(0, 31)), "--fakesat", FAKESAT, "--timeout_ms", 20000,
+    vlib.vh(["ext", "--replies", rfile, "--volumes", ",".join(["trunc:%d" % k for k in range(0, 31)] + ["lategarbage:%d" % k for k in (0, 4000, 9000, 70000, 200000)]), "--fakesat", FAKESAT, "--timeout_ms", 20000,
              "--tmp", os.path.join(res.wd, "exttmp"), "--out", out, "--threads", vlib.NCPU])
     tsegs = vlib.segments(out, openers=("reset",))
     t1, st = vlib.judge("TraceExtSat.tla", tsegs, res.wd, "trunc")
@@ -534,7 +538,7 @@ def c17(tier):
     res.nontrivial = len(nt)
     res.rule = ("for every query a fault-free run counts the SAT calls k, then one run per position 1..k with the backend answering Unknown at "
                 "that call (FaultySat through the public factory); separately every SAT call fails through a real process (fakesat modes: exit "
-                "without output, truncated model, garbage line, status without model, crash, model without terminating 0); "
+                "without output, truncated model, garbage line right after the answer or 9-70 KB later, status without model, crash, model without terminating 0); "
                 "non-trivial = distinct (framework, query, encoder, fault position, fault kind) in which the fault was actually injected")
     res.exhaustive = False
     res.extra["exhaustive_part"] = "all frameworks <= 3 arguments x all problems x every SAT-call position (Unknown result)"
@@ -618,6 +622,7 @@ def c16(tier):
     vols += "," + ",".join("trunc:%d" % k for k in range(0, 31))       # a 31-variable model cut after every literal
     # the four child behaviours of ExtSat.tla x input above the pipe capacity x output above the pipe capacity
     vols += ",ok@200,pad:200000@200,earlypad:1024,earlypad:200000,earlypad:200000@200,interleave:1024@200,interleave:400000@200,noread:0,noread:0@200,noread:200000@200"
+    vols += ",lategarbage:0,lategarbage:4000,lategarbage:9000,lategarbage:70000,lategarbage:200000"
     if thorough:
         vols += ",pad:33554432,pad:65536,pad:65537,pad:131072,earlypad:8388608@2000,interleave:8388608@2000,noread:8388608@2000,ok@20000"
     tmp = os.path.join(res.wd, "exttmp")
